@@ -31,7 +31,9 @@ def jobs(tier):
            for sh in b["shapes"] for leaf in b["leaves"]]
     for sh in ("nested+late", "cfglist+late", "nested+env"):
         for leaf in ["list-int", "dict-typed", "list-int-cd", "dict-any-dflt", "dict-of-lists"]:
-            out.append({"name": "%s/%s" % (sh, leaf), "shape": sh, "leaf": leaf, "depth": b["depth"], "tier": tier})
+            # quick: the many-valued leaves one operation deep in the nested variants (two deep in the plain shapes above)
+            depth = 1 if tier != "thorough" and sh.startswith("nested") and leaf in ("list-int", "dict-typed", "list-int-cd") else b["depth"]
+            out.append({"name": "%s/%s" % (sh, leaf), "shape": sh, "leaf": leaf, "depth": depth, "tier": tier})
     for fmt in (LOAD_FORMATS if tier == "thorough" else LOAD_FORMATS[:3]):
         out.append({"name": "loaded/%s" % fmt, "kind": "loaded", "fmt": fmt})
     out.append({"name": "tree-transfer", "kind": "transfer"})
